@@ -558,3 +558,104 @@ def r05_2(ctx):
 def r05_3(ctx):
     r03_2(ctx)
     r03_4(ctx)
+
+
+# ------------------------------------------------------------------ deeper structure of the dependency manager / progress counters
+
+HS_INSERT = "std::collections::HashSet::<T, S, A>::insert"
+HS_CONTAINS = "std::collections::HashSet::<T, S, A>::contains"
+
+
+@rule("C02", "R02.7", floor=4)
+def r02_7(ctx):
+    """DepManager: an edge to an already finished dependency is never recorded; `true` is returned only if an unfinished one exists;
+    a depender is released only on its last edge; finishing is recorded before dependers are looked up"""
+    lib = ctx.lib
+    ad = body(ctx, "add_dependency")
+    nf = body(ctx, "notify_finish")
+    if ad:
+        not_fin = bool_call_edges(ad, lib, HS_CONTAINS, False, arg_pred=lambda t: has_field(C.trace(ad, t["args"][0]), "finished"))
+        if not not_fin:
+            ctx.violation(["finished-check"], "add_dependency no longer tests whether a dependency already finished (a file could wait forever for "
+                          "a dependency that will never be announced again)", site=ctx.site(ad, 0))
+        else:
+            # edge recording and the `added = true` assignment sit behind the not-finished edge
+            recs = [(bb, t) for bb, t in calls_to(ad, HS_INSERT)]
+            recs += [(bb, t) for bb, t in calls_to(ad, "std::collections::HashMap::<K, V, S, A>::entry") if has_field(C.trace(ad, t["args"][0]), "in_edges")]
+            for bb, t in recs:
+                if C.guarded(ad, bb, not_fin):
+                    ctx.ok("edge recorded only for an unfinished dependency", site=ctx.site(ad, bb))
+                else:
+                    ctx.violation(["edge-to-finished"], "a dependency edge can be recorded for a dependency that already finished", site=ctx.site(ad, bb))
+            trues = [bb for bb, si, st in ad.stmts() if st["k"] == "assign" and st["rv"]["k"] == "use" and C.op_const(st["rv"]["op"]) == "true"
+                     and ad.locals[st["lhs"]["l"]]["ty"] == "bool" and ad.locals[st["lhs"]["l"]].get("name")]
+            for bb in trues:
+                if C.guarded(ad, bb, not_fin):
+                    ctx.ok("`has unfinished dependencies` set only behind the not-finished edge", site=ctx.site(ad, bb))
+                else:
+                    ctx.violation(["added-without-edge"], "add_dependency can report outstanding dependencies although all of them finished "
+                                  "(the depender would never be rescheduled)", site=ctx.site(ad, bb))
+    if nf:
+        last = cmp_holds_edges(nf, lib, "ge", lambda lv: has_const(lv, "1_usize"), lambda lv: any(
+            l.kind == "call" and C.callee_name(l.data) == "std::collections::HashMap::<K, V, S, A>::get_mut" for l in lv) or bool(lv))
+        rel = [(bb, t) for bb, t in calls_to(nf, HS_INSERT) if not has_field(C.trace(nf, t["args"][0]), "finished")]
+        le = C.guard_edges(nf, lib, lambda c, v, leaf: c.kind == "bool" and leaf is not None and leaf.kind == "binop" and
+                           ((leaf.data["op"] == "Le" and has_const(C.trace(nf, leaf.data["b"]), "1_usize") and v is True) or
+                            (leaf.data["op"] == "Lt" and has_const(C.trace(nf, leaf.data["b"]), "2_usize") and v is True) or
+                            (leaf.data["op"] == "Eq" and has_const(C.trace(nf, leaf.data["b"]), "1_usize") and v is True) or
+                            (leaf.data["op"] == "Gt" and has_const(C.trace(nf, leaf.data["b"]), "1_usize") and v is False)))
+        if not rel:
+            ctx.anchor_missing("release (output.insert) in notify_finish")
+        for bb, t in rel:
+            if le and C.guarded(nf, bb, le):
+                ctx.ok("a depender is released only when its last outstanding edge is removed", site=ctx.site(nf, bb))
+            else:
+                ctx.violation(["early-release"], "a depender can be released while it still has unfinished dependencies", site=ctx.site(nf, bb),
+                              witness=C.witness(nf, bb, le))
+        fins = [(bb, t) for bb, t in calls_to(nf, HS_INSERT) if has_field(C.trace(nf, t["args"][0]), "finished")]
+        rets = [bb for bb in C.live(nf) if nf.term(bb)["k"] == "return"]
+        if fins and all(C.guarded(nf, r, out_edges(nf, [bb for bb, t in fins])) for r in rets):
+            ctx.ok("every path through notify_finish records the file as finished", site=ctx.site(nf, fins[0][0]))
+        else:
+            ctx.violation(["finish-not-recorded"], "notify_finish can return without recording the file as finished (a later depender would wait "
+                          "for it forever)", site=ctx.site(nf, 0))
+
+
+@rule("C03", "R03.7", floor=3)
+def r03_7(ctx):
+    """Progress: is_done() is done_count == total_count; add_done/add_total add to the matching counter"""
+    lib = ctx.lib
+    isd = body(ctx, "progress_is_done")
+    if isd:
+        ok = False
+        for l in C.trace(isd, {"l": 0, "p": []}):
+            if l.kind == "binop" and l.data["op"] == "Eq" and not l.neg:
+                fa = {n for (o, v, n) in sum((C.pl_fields(x.data) for x in C.trace(isd, l.data["a"]) if x.kind == "field"), [])}
+                fb = {n for (o, v, n) in sum((C.pl_fields(x.data) for x in C.trace(isd, l.data["b"]) if x.kind == "field"), [])}
+                if fa | fb == {"done_count", "total_count"} and fa != fb:
+                    ok = True
+        if ok:
+            ctx.ok("is_done() == (done_count == total_count)", site=ctx.site(isd, 0))
+        else:
+            ctx.violation(["is_done"], "Progress::is_done is no longer exactly done_count == total_count", site=ctx.site(isd, 0))
+    for role_name, fld in (("progress_add_done", "done_count"), ("progress_add_total", "total_count")):
+        b = body(ctx, role_name)
+        if not b:
+            continue
+        pc = b.param_index_by_name("count")
+        good = False
+        for bb, si, st in b.stmts():
+            if st["k"] == "assign" and st["lhs"]["p"] and st["lhs"]["p"][-1].get("name") == fld and st["rv"]["k"] == "use":
+                for l in C.trace(b, st["rv"]["op"]):
+                    if l.kind == "binop" and l.data["op"].startswith("Add"):
+                        la, lb2 = C.trace(b, l.data["a"]), C.trace(b, l.data["b"])
+                        if (has_field(la, fld) and any(x.kind == "param" and x.data == pc for x in lb2)) or \
+                                (has_field(lb2, fld) and any(x.kind == "param" and x.data == pc for x in la)):
+                            good = True
+        others = [st["lhs"]["p"][-1].get("name") for bb, si, st in b.stmts() if st["k"] == "assign" and st["lhs"]["p"]
+                  and st["lhs"]["p"][-1].get("owner") == ADT["Progress"] and st["lhs"]["p"][-1].get("name") in ("done_count", "total_count")
+                  and st["lhs"]["p"][-1].get("name") != fld]
+        if good and not others:
+            ctx.ok("%s: %s += count" % (role_name.split("_", 1)[1], fld), site=ctx.site(b, 0))
+        else:
+            ctx.violation([role_name, fld], "%s no longer adds its count to %s only" % (role_name, fld), site=ctx.site(b, 0))
